@@ -172,6 +172,11 @@ def check(ctx: Ctx, col: Collector, tier: str) -> None:
     trues = [o for o in routs if o.kind == "return" and o.value == Const(True)]
     others = {repr(o.value) for o in routs if o.kind == "return" and o.value != Const(True)}
     n1, n2, n3 = [], [], []
+    # "the key names the module" may also be established by resolving the key against the re-exporting packages: an any(...) over the sources of the
+    # key whose element compares the resolved key with the module's qualified name
+    resolved_module_test = any(isinstance(a, ast.Assign) and any(isinstance(t, ast.Name) and t.id == "module_is_reexported" for t in a.targets) and isinstance(a.value, ast.BoolOp)
+                               and isinstance(a.value.op, ast.Or) and any(isinstance(v, ast.Call) and getattr(v.func, "id", "") == "any" and "module_qname" in ast.unparse(v) and "reexported_key" in ast.unparse(v)
+                                                                          for v in a.value.values) for a in ast.walk(rfi.node))
     for o in trues:
         facts = dict(o.facts)
         # N1: the exported name is public: name not internal, or a public alias
@@ -196,7 +201,8 @@ def check(ctx: Ctx, col: Collector, tier: str) -> None:
         # N2: by-name re-exports (third block): the import's qualified name is a suffix of the declaration's qualified name
         # ... or, resolved against the re-exporting package, is that name (a membership of qname in the set of resolutions)
         byname = any(".qualified_imports[*].qualified_name" in k and (k.startswith("truthy:.endswith(") and "<qname>" in k or k.startswith("<qname> in {")) and v for k, v in facts.items())
-        whole_module = any("module_is_reexported" in k for k in facts) or any(re.search(r"in \{.*\.\*", k) and v for k, v in facts.items())
+        whole_module = any("module_is_reexported" in k for k in facts) or any(re.search(r"in \{.*\.\*", k) and v for k, v in facts.items()) or (
+            resolved_module_test and any(k.startswith("truthy:any(") and v for k, v in facts.items()))
         if not byname and not whole_module:
             n2.append(fmt_facts(o.facts)[:200])
     key0 = f"{VISITOR}::{VCLS}._check_publicity_in_reexports"
@@ -332,6 +338,31 @@ def check(ctx: Ctx, col: Collector, tier: str) -> None:
         else:
             col.ok("C04.REEXPORT-GUARDS", key, repo.loc(VISITOR, cnode), f"`{desc}` leaves pkg._impl.{imp} private (outcomes {sorted(verdicts)})")
 
+    # the same for star imports, evaluated on a concrete re-export map: `from ._mod import *` (direct child) and `from .sub._mod import *` (deeper path)
+    from ..core.absint import DictV
+    for keyc, wild, mq, desc in (("_mod.*", "_mod", "pkg._mod", "from ._mod import *"), ("sub._mod.*", "sub._mod", "pkg.sub._mod", "from .sub._mod import *")):
+        wit = ctx.interp(rfi, inline={"is_internal"})
+        src = Obj("Module", (("id", Const("pkg")), ("wildcard_imports", ListV((Obj("WildcardImport", (("module_name", Const(wild)),)),))), ("qualified_imports", ListV(()))))
+        api = Obj("API", (("reexport_map", DictV(((Const(keyc), ListV((src,))),))),))
+        wmf = Obj("MypyFile", (("fullname", Const(mq)), ("name", Const("_mod"))))
+        wouts = wit.run_function(rfi, {"self": Sym("self"), "name": Const("Foo"), "qname": Const(f"{mq}.Foo"), "parent": Obj("Module", ())},
+                                 State({"self": Sym("self"), "self.api": api, "self.mypy_file": wmf}))
+        verdicts = {("True" if o.kind == "return" and o.value == Const(True) else "None" if o.kind == "return" and o.value == Const(None) else o.kind) for o in wouts}
+        key = f"{key0}::wildcard-source::pkg<-{keyc}"
+        if "True" in verdicts:
+            col.ok("C04.REEXPORT-GUARDS", key, repo.loc(VISITOR, rfi.node), f"`{desc}` in pkg/__init__.py makes the public class {mq}.Foo public")
+        else:
+            col.bad("C04.REEXPORT-GUARDS", key, repo.loc(VISITOR, rfi.node), f"`{desc}`: outcomes {sorted(verdicts)}",
+                    f"`{desc}` in pkg/__init__.py does not make {mq}.Foo public: a star import is only recognised when its text is the bare name or the full qualified name of the module, "
+                    f"not a relative path with more than one segment - the class, its members and the module's functions are dropped from the stubs")
+    # the level of a relative import (`from .._core import Foo` in pkg/api/__init__.py) decides which package the text `_core` starts from
+    emfi = repo.function(VISITOR, f"{VCLS}.enter_moduledef")
+    reads_level = any(isinstance(n, ast.Attribute) and n.attr == "relative" for n in ast.walk(emfi.node)) or "correct_relative_import" in ast.unparse(emfi.node)
+    (col.ok if reads_level else col.bad)("C04.REEXPORT-SOURCE", f"{VISITOR}::{VCLS}.enter_moduledef::relative-level-recorded", repo.loc(VISITOR, emfi.node),
+                                         "the level of relative imports is read" if reads_level else "ImportFrom.relative / ImportAll.relative are never read: only the module text after the dots is recorded",
+                                         *([] if reads_level else ["a re-export through a parent-relative import is not recognised: `from .._core import Foo` in pkg/api/__init__.py is recorded as `_core.Foo` and resolved "
+                                                                   "against pkg.api (pkg.api._core.Foo), never against pkg - the public name pkg.api.Foo is dropped from the stubs with everything nested in it"]))
+
     # ------------------------------------------------------------------ REEXPORT-TABLE (both directions, per import form)
     reexport_table(ctx, col)
 
@@ -377,7 +408,9 @@ def reexport_table(ctx: Ctx, col: Collector) -> None:
 
     # ---- wildcard imports: public iff ((same package and W == module name) or (key names the module and W == module qname)) and public name and public parent
     node, _, _, entry = wl[0]
-    atoms = [lambda k: k in ("<MN>==<W>", "<W>==<MN>"), lambda k: k in ("<MQ>==<W>", "<W>==<MQ>")]
+    # "the star import names the module by its qualified name": an equality, or a membership of the module's qualified name in the resolutions of the
+    # imported text (absolute, relative to the importing package)
+    atoms = [lambda k: k in ("<MN>==<W>", "<W>==<MN>"), lambda k: k in ("<MQ>==<W>", "<W>==<MQ>") or (k.startswith("<MQ> in {") and "<W>" in k)]
     for same in (True, False):
         for other in (True, False):
             if not same and not other:
